@@ -1,6 +1,7 @@
 package main
 
 import (
+	"sort"
 	"go/token"
 	"strings"
 
@@ -225,8 +226,8 @@ func init() {
 			}
 			o.Check(len(e.Calls(f, callee)) >= 1, "user|"+who, who+" no longer evaluates its matchers with "+callee, nil)
 		}
-		o.Check(n >= 2, "few", "reads of Matcher.re not found", nil)
-		o.MinSites(2)
+		o.Check(n >= 1, "few", "reads of Matcher.re not found", nil)
+		o.MinSites(1)
 	})
 
 	reg("C16", "C16.7", "T9", "operator tables agree: classic typeMap and MatchType.String map all four operators consistently", func(o *Ob) {
@@ -241,8 +242,19 @@ func init() {
 				o.Site(in, e.X(fn, mu.Key)+" ↦ "+e.X(fn, mu.Value))
 			}
 		}
-		for op, v := range want {
-			o.Check(got[op] == itoa(int(v)), "string|"+op, "MatchType.String: operator "+op+" is printed for type "+got[op]+", expected "+itoa(int(v)), nil)
+		if len(got) == 0 {
+			// no table: a switch over the receiver returning the operator
+			var rows []Row
+			for op, v := range want {
+				rows = append(rows, Row{Name: op, Assume: A(L("(recv == "+itoa(int(v))+")", true)), Ret: [][]string{Vals(op)}})
+				o.SiteS("case " + itoa(int(v)) + " ↦ " + op)
+			}
+			sort.Slice(rows, func(i, j int) bool { return rows[i].Name < rows[j].Name })
+			o.Table(fn, "string", rows)
+		} else {
+			for op, v := range want {
+				o.Check(got[op] == itoa(int(v)), "string|"+op, "MatchType.String: operator "+op+" is printed for type "+got[op]+", expected "+itoa(int(v)), nil)
+			}
 		}
 		// typeMap in package init
 		ini := o.Fn("am/pkg/labels.init")
